@@ -18,7 +18,8 @@ TRUSTED = []
 
 MSG_HOOKS = ["marshalled", "sending", "received", "parsed", "unmarshalled"]
 DOC_HOOKS = ["loaded", "parsed"]
-KIND_CLASS = {"message": "MessagePlugin", "document": "DocumentPlugin", "init": "InitPlugin"}
+KIND_CLASS = {"message": "MessagePlugin", "document": "DocumentPlugin", "init": "InitPlugin",
+              "multi": "InitPlugin+DocumentPlugin+MessagePlugin"}
 
 
 class Boom(Exception):
@@ -26,20 +27,44 @@ class Boom(Exception):
 
 
 EXC_CLASSES = {"Boom": None, "AttributeError": AttributeError, "TypeError": TypeError, "KeyError": KeyError,
-               "ValueError": ValueError, "RuntimeError": RuntimeError}
+               "ValueError": ValueError, "RuntimeError": RuntimeError, "TransportError": "suds.transport"}
+
+
+def expand(spec):
+    """One object deriving from several plugin classes takes part in each of their domains, at its position in the
+    list. -> (single-kind plugin list for the model, index of the original plugin for each entry)"""
+    out, orig = [], []
+    for i, (k, hs) in enumerate(spec):
+        if k != "multi":
+            out.append({"kind": KIND_CLASS[k], "hooks": hs})
+            orig.append(i)
+            continue
+        for kind, pool in (("init", ["initialized"]), ("document", DOC_HOOKS), ("message", MSG_HOOKS)):
+            out.append({"kind": KIND_CLASS[kind], "hooks": [h for h in pool if h in hs]})
+            orig.append(i)
+    return out, orig
 
 
 def make_plugin(kind, hooks, idx, log, raise_at=None, exc="Boom"):
     import suds.plugin
-    base = {"message": suds.plugin.MessagePlugin, "document": suds.plugin.DocumentPlugin,
-            "init": suds.plugin.InitPlugin}[kind]
+    base = {"message": (suds.plugin.MessagePlugin,), "document": (suds.plugin.DocumentPlugin,),
+            "init": (suds.plugin.InitPlugin,),
+            "multi": (suds.plugin.InitPlugin, suds.plugin.DocumentPlugin, suds.plugin.MessagePlugin)}[kind]
     ns = {}
+    plugin_kind = kind
 
     def mk(hook):
         def fn(self, context):
             log.append((idx, hook, getattr(context, "url", None)))
             if raise_at == hook:
+                if exc == "TransportError":
+                    import suds.transport
+                    raise suds.transport.TransportError("BOOM %d:%s" % (idx, hook), 403)
                 raise (EXC_CLASSES.get(exc) or Boom)("BOOM %d:%s" % (idx, hook))
+            kind = plugin_kind
+            if kind == "multi":
+                # which domain is calling: document contexts carry the url, init contexts the wsdl
+                kind = "document" if hasattr(context, "url") else "init" if hasattr(context, "wsdl") else "message"
             if kind == "message":
                 if hook == "marshalled":
                     context.envelope.set("mk%d" % idx, str(len([l for l in log if l[1] == "marshalled"])))
@@ -63,7 +88,7 @@ def make_plugin(kind, hooks, idx, log, raise_at=None, exc="Boom"):
         return fn
     for h in hooks:
         ns[h] = mk(h)
-    return type("P%d" % idx, (base,), ns)()
+    return type("P%d" % idx, base, ns)()
 
 
 def plugin_specs(ctx):
@@ -71,7 +96,7 @@ def plugin_specs(ctx):
     rng = ctx.rng
     singles = [("message", [h]) for h in MSG_HOOKS] + [("message", list(MSG_HOOKS)), ("message", [])] + \
               [("document", [h]) for h in DOC_HOOKS] + [("document", list(DOC_HOOKS))] + \
-              [("init", ["initialized"]), ("init", [])]
+              [("init", ["initialized"]), ("init", []), ("multi", ["initialized", "loaded"] + MSG_HOOKS)]
     out = [[]]
     maxlen = ctx.pick(2, 3)
     for n in range(1, maxlen + 1):
@@ -81,8 +106,9 @@ def plugin_specs(ctx):
         n = rng.randint(2, ctx.pick(3, 4))
         lst = []
         for _i in range(n):
-            k = rng.choice(["message", "message", "document", "init"])
-            pool = {"message": MSG_HOOKS, "document": DOC_HOOKS, "init": ["initialized"]}[k]
+            k = rng.choice(["message", "message", "document", "init", "multi"])
+            pool = {"message": MSG_HOOKS, "document": DOC_HOOKS, "init": ["initialized"],
+                    "multi": ["initialized", "loaded"] + MSG_HOOKS}[k]
             lst.append((k, [h for h in pool if rng.random() < 0.55]))
         out.append(lst)
     return out
@@ -100,7 +126,7 @@ def run(ctx):
     if len(specs) > ctx.pick(3000, 30000):
         head = specs[:400]
         specs = head + rng.sample(specs[400:], ctx.pick(2600, 29000))
-    reqs, reals, metas = [], [], []
+    reqs, reals, metas, origs = [], [], [], []
     for spec in specs:
         for _ in range(ctx.pick(2, 3)):
             body, status = rng.choice(REPLIES)
@@ -145,12 +171,18 @@ def run(ctx):
                 ctor_log_len = len(log)
             meta = {"plugins": [{"kind": KIND_CLASS[k], "hooks": hs} for k, hs in spec], "body": body, "status": status,
                     "nosend": nosend, "retxml": retxml, "faults": faults, "raise_at": raise_at}
-            reqs.append({"op": "plugin.log", "plugins": meta["plugins"],
+            expanded, orig = expand(spec)
+            origs.append(orig)
+            reqs.append({"op": "plugin.log", "plugins": expanded,
                          "reply": None if nosend else {"status": status, "body": body}, "retxml": retxml})
             reals.append((list(log), ctor_log_len, outcome, tr.sent[-1]["message"] if tr.sent else None))
             metas.append(meta)
     answers = ctx.driver.ask(reqs)
-    for meta, (log, nctor, outcome, sent), ans in zip(metas, reals, answers):
+    for meta, (log, nctor, outcome, sent), ans, orig in zip(metas, reals, answers, origs):
+        if ans is not None:
+            ans = dict(ans)
+            for key in ("openFetched", "init", "invoke"):
+                ans[key] = [[orig[i], h] for i, h in ans[key]]
         nontrivial = len(meta["plugins"]) >= 2 or meta["body"] != "normal" or meta["status"] is not None
         ctx.case(common.digest(meta), nontrivial)
         ctx.dist["outcome=" + outcome[0]] += 1
